@@ -282,4 +282,14 @@ example : WF (build 2 (fun i => if i = 0 then .normal 1 2 else .lognormal 0 (1 /
     · simp [Chol.run, Chol.step_real, Chol.column_real]
       norm_num
 
+/-- non-vacuity for the constructor `general`: the composed maps of a normal(1, 2) marginal, given as functions, are admissible -/
+example : (Marg.general (fun z : ℝ => 1 + 2 * z) (fun x => (x - 1) / 2) (fun _ => 2) (fun _ => 0)).Valid := by
+  refine ⟨fun z => by ring, fun z => ?_, fun _ _ => by norm_num, fun x _ => ?_⟩
+  · have h := ((hasDerivAt_id z).const_mul (2 : ℝ)).const_add 1
+    simp only [mul_one, id] at h
+    exact h
+  · have h := ((hasDerivAt_id x).sub_const 1).div_const (2 : ℝ)
+    simp only [id] at h
+    exact h
+
 end FF.Nataf
